@@ -225,3 +225,84 @@ def _c04_remove_node_mark(case, observed):
         return False
     c, marks = _node_marks_at(case)
     return sum(1 for m in marks if m["type"] == st["mark"]["type"]) >= 2
+
+
+@predicate("earlier-step-changes-container-of-later-range")
+def _c17_retag(case, observed):
+    """C17: after applying the earlier step alone, the chain of nodes (type, attrs, marks) that contain the later
+    step's start position is different: the earlier step re-typed, split or unwrapped the container of the other
+    step's range without touching its content (e.g. it replaced only the container's opening token, or inserted a
+    close/open pair before the range), so the two edits are not independent although their ranges are separated."""
+    from . import adapters
+    from .ref import slices as rsl
+    from .ref import tokens as tk
+
+    c = adapters.ctx(case["schema"])
+    T0 = tk.doc_tokens(c.model, case["doc"])
+
+    def lo(sd):
+        return sd["pos"] if "pos" in sd else sd["from"]
+
+    a = adapters.build_step(c, case["a"])
+    r = a.apply(c.node(case["doc"]))
+    if r.doc is None:
+        return False
+    T1 = tk.doc_tokens(c.model, r.doc.to_json())
+    blo = lo(case["b"])
+    chain0 = rsl.open_stack(T0, blo)
+    chain1 = rsl.open_stack(T1, blo + len(T1) - len(T0))
+    return chain0 != chain1
+
+
+def _ideal_apply(model, T, sd):
+    """Token-level effect a step is meant to have, ignoring validity (reference splice)."""
+    import json as _json
+
+    from .ref import marks as rmk
+    from .ref import slices as rsl
+
+    k = sd["stepType"]
+    if k == "replace":
+        S = rsl.slice_tokens(model, sd.get("slice") or {"content": []})
+        return T[: sd["from"]] + S + T[sd["to"]:]
+    if k == "replaceAround":
+        S = rsl.slice_tokens(model, sd.get("slice") or {"content": []})
+        ins = sd["insert"]
+        return T[: sd["from"]] + S[:ins] + T[sd["gapFrom"]: sd["gapTo"]] + S[ins:] + T[sd["to"]:]
+    if k in ("addMark", "removeMark"):
+        out = list(T)
+        for i in range(sd["from"], min(sd["to"], len(T))):
+            t = T[i]
+            if t[0] in ("t", "l"):
+                marks = _json.loads(t[-1])
+                if k == "addMark":
+                    marks = rmk.add(model, sd["mark"], marks)
+                else:
+                    marks = rmk.remove(sd["mark"], marks)
+                out[i] = (*t[:-1], rsl.jkey(marks))
+        return out
+    return T
+
+
+@predicate("combined-edit-is-schema-invalid")
+def _c17_combined_invalid(case, observed):
+    """C17: splicing BOTH edits into the token sequence (the outcome any rebasing aims at) gives a tree that is
+    not schema-valid: the schema couples the two separated ranges (sibling order / count constraints of a common
+    parent, or one edit changes the type of the node that contains the other), so no order of application can
+    succeed."""
+    from . import adapters
+    from .ref import tokens as tk
+    from .ref import validity
+
+    c = adapters.ctx(case["schema"])
+    d = case["doc"]
+    T = tk.doc_tokens(c.model, d)
+    T2 = _ideal_apply(c.model, T, case["b"])   # b lies after a: a's positions are unaffected
+    T3 = _ideal_apply(c.model, T2, case["a"])
+    content = tk.parse_content(T3)
+    if content is None:
+        return True
+    nd = {k: v for k, v in d.items() if k != "content"}
+    if content:
+        nd["content"] = content
+    return validity.node_problem(c.model, nd) is not None
